@@ -126,3 +126,25 @@ package provider
 //@   inline
 //@   property C09
 //@   loop 1 invariant elements-non-nil: len(#attrs) >= 0 && (forall i :: 0 <= i && i < len(#attrs) ==> #attrs[i] != nil)
+//@
+//@ pure wfProvider(p) = p != nil && p.conf != nil && p.conf.IDPConfig != nil && p.storage != nil && p.metadataEndpoint != nil && wfIDP(p.identityProvider)
+//@ func (*provider.Provider).metadataHandle
+//@   inline
+//@   property C09
+//@   requires wfProvider(p) && wfReq(r) && w != nil
+//@ func provider.healthHandler
+//@   inline
+//@   property C09
+//@   requires wfReq(r) && w != nil
+//@ func provider.Readiness
+//@   inline
+//@   property C09
+//@   requires wfReq(r) && w != nil
+//@   requires forall i :: 0 <= i && i < len(probes) ==> probes[i] != 0
+//@ func provider.ReadyStorage$1
+//@   inline
+//@   property C09
+//@ func (*provider.IssuerInterceptor).setIssuerCtx
+//@   inline
+//@   property C09
+//@   requires i != nil && i.issuerFromRequest != 0 && wfReq(r) && next != nil
